@@ -1,5 +1,53 @@
-(* C11 - property theorems only *)
-From VT Require Import Check.C11Check.
-Theorem C11_placeholder : forall h : hcase, c11_eval h = c11_eval h.
-Proof. reflexivity. Qed.
-Print Assumptions C11_placeholder.
+(* C11 - property theorems only.  cfg_ok / op_ok exclude application misuse of room None
+   (handlers or API calls leaving / closing / entering the room None); nothing is assumed about
+   which handlers raise, nor when. *)
+From VT Require Import Server.Residue.
+
+Theorem C11_inv_init : Inv srv_init.
+Proof. exact Inv_init. Qed.
+Print Assumptions C11_inv_init.
+
+Theorem C11_inv_step : forall c s o, cfg_ok c -> op_ok o -> Inv s -> Inv (fst (step c s o)).
+Proof. exact step_Inv. Qed.
+Print Assumptions C11_inv_step.
+
+Theorem C11_inv : forall c ops, cfg_ok c -> Forall op_ok ops -> Inv (fst (run c srv_init ops)).
+Proof. exact C11_inv_lemma. Qed.
+Print Assumptions C11_inv.
+
+Theorem C11_gone : forall c s e reason,
+  cfg_ok c -> Inv s -> In e (live s) ->
+  gone e (sids_of_eio (mg s) e) (fst (step c s (EioClose e reason))).
+Proof. exact C11_gone_lemma. Qed.
+Print Assumptions C11_gone.
+
+Theorem C11_fresh : forall c s e reason,
+  cfg_ok c -> Inv s -> In e (live s) -> (forall x, In x (live s) -> x = e) ->
+  fst (step c s (EioClose e reason)) = mkSrv mgr_init [] [] [] [] (fresh s).
+Proof. exact C11_fresh_lemma. Qed.
+Print Assumptions C11_fresh.
+
+Theorem C11_no_residue : forall c ops,
+  cfg_ok c -> Forall op_ok ops -> no_residue (dump_of (fst (run c srv_init ops))) = true.
+Proof. exact C11_no_residue_lemma. Qed.
+Print Assumptions C11_no_residue.
+
+Theorem C11_final : forall c ops,
+  cfg_ok c -> Forall op_ok ops -> c11_final (dump_of (fst (run c srv_init ops))) = true.
+Proof. exact C11_final_lemma. Qed.
+Print Assumptions C11_final.
+
+Theorem C11_no_actions_ok : forall c, has_actions c = false -> cfg_ok c.
+Proof. exact cfg_ok_no_actions. Qed.
+Print Assumptions C11_no_actions_ok.
+
+Theorem C11_leave_none_refuted :
+  exists c ops, has_actions c = false /\ no_residue (dump_of (fst (run c srv_init ops))) = false.
+Proof. exact Residue.C11_leave_none_refuted. Qed.
+Print Assumptions C11_leave_none_refuted.
+
+Theorem C11_gone_example :
+  Inv ex_state /\ cfg_ok ex_cfg /\
+  gone ex_e1 [sid_name 0; sid_name 1] (fst (step ex_cfg ex_state (EioClose ex_e1 (PStr (s2l "transport close"))))).
+Proof. exact (conj ex_state_Inv (conj ex_cfg_ok ex_gone)). Qed.
+Print Assumptions C11_gone_example.
